@@ -227,7 +227,7 @@ pub fn run_x(line: &str) -> String {
         let r = std::panic::catch_unwind(std::panic::AssertUnwindSafe(|| run_x_inner(&c2, t2)));
         let _ = tx.send(r.map_err(|_| ()));
     });
-    let verdict = match rx.recv_timeout(Duration::from_secs(8)) {
+    let verdict = match rx.recv_timeout(Duration::from_secs(15)) {
         Ok(Ok(s)) => s,
         Ok(Err(())) => "PANIC".to_string(),
         Err(_) => "HANG".to_string(),
@@ -357,7 +357,7 @@ pub fn run_y(line: &str) -> String {
         }));
         let _ = tx.send(r.map_err(|_| ()));
     });
-    let r = match rx.recv_timeout(Duration::from_secs(8)) {
+    let r = match rx.recv_timeout(Duration::from_secs(15)) {
         Ok(Ok(s)) => s,
         Ok(Err(())) => "PANIC".to_string(),
         Err(_) => "HANG".to_string(),
@@ -530,7 +530,7 @@ pub fn run_z(line: &str) -> String {
         }));
         let _ = tx.send(r.map_err(|_| ()));
     });
-    let r = match rx.recv_timeout(Duration::from_secs(8)) {
+    let r = match rx.recv_timeout(Duration::from_secs(15)) {
         Ok(Ok(s)) => s,
         Ok(Err(())) => "PANIC".to_string(),
         Err(_) => "HANG".to_string(),
